@@ -547,7 +547,7 @@ theorem hasEqNull_wrap (s : List Tok) (X : Bool) (h : ∀ k, hasEqNull (s ++ k) 
   · exact h k
   · exact h k
   · simp only [List.cons_append, List.append_assoc, hasEqNull_cons, Tok.isEqLike, Bool.false_and, Bool.false_or, h]
-    simp [hasEqNull_cons, Tok.isEqLike]
+    simp
 
 theorem head_wrap (r : T) (k : List Tok) :
     ((wrapS (rend false r) ++ k).head? == some Tok.null) = r.isNull := by
@@ -673,6 +673,74 @@ theorem eqNullT_buildB (d : String) (e : BoolE) : eqNullT (toT d (buildB e)) = f
   | isnotnull x => simp [buildB, toT, eqNullT, eqNullT_buildN, Extracted.isnotnullOp, Tok.isEqLike, BinOp.spell]
   | eqNone x => simp only [buildB]; split <;> simp [eqNullT_noneRule]
   | neNone x => simp only [buildB]; split <;> simp [eqNullT_noneRule]
+
+
+/-! ## n-ary AND / OR -/
+
+theorem and3_assoc (a b c : Option Bool) : and3 (and3 a b) c = and3 a (and3 b c) := by
+  rcases a with _ | _ | _ <;> rcases b with _ | _ | _ <;> rcases c with _ | _ | _ <;> rfl
+
+theorem or3_assoc (a b c : Option Bool) : or3 (or3 a b) c = or3 a (or3 b c) := by
+  rcases a with _ | _ | _ <;> rcases b with _ | _ | _ <;> rcases c with _ | _ | _ <;> rfl
+
+theorem and3_all3 (x : Option Bool) (xs : List (Option Bool)) : and3 x (all3 xs) = all3 (x :: xs) := by
+  simp only [all3, List.mem_cons]
+  rcases x with _ | _ | _ <;> by_cases h1 : some false ∈ xs <;> by_cases h2 : none ∈ xs <;>
+    simp [h1, h2, and3]
+
+theorem or3_any3 (x : Option Bool) (xs : List (Option Bool)) : or3 x (any3 xs) = any3 (x :: xs) := by
+  simp only [any3, List.mem_cons]
+  rcases x with _ | _ | _ <;> by_cases h1 : some true ∈ xs <;> by_cases h2 : none ∈ xs <;>
+    simp [h1, h2, or3]
+
+theorem and3_true (x : Option Bool) : and3 x (some true) = x := by rcases x with _ | _ | _ <;> rfl
+theorem or3_false (x : Option Bool) : or3 x (some false) = x := by rcases x with _ | _ | _ <;> rfl
+
+theorem foldl_and3 (xs : List (Option Bool)) : ∀ a, xs.foldl and3 a = and3 a (all3 xs) := by
+  induction xs with
+  | nil => intro a; simp [all3, and3_true]
+  | cons x xs ih => intro a; rw [List.foldl_cons, ih, and3_assoc, and3_all3]
+
+theorem foldl_or3 (xs : List (Option Bool)) : ∀ a, xs.foldl or3 a = or3 a (any3 xs) := by
+  induction xs with
+  | nil => intro a; simp [any3, or3_false]
+  | cons x xs ih => intro a; rw [List.foldl_cons, ih, or3_assoc, or3_any3]
+
+theorem evalB_foldR_and (r : Row) (es : List BoolE) : ∀ e,
+    evalB r (foldR .andFn e es) = all3 ((e :: es).map (evalB r)) := by
+  induction es with
+  | nil => intro e; simp only [foldR, List.map]; rw [← and3_all3]; simp [all3, and3_true]
+  | cons e' es ih => intro e; simp only [foldR, evalB, ih]; rw [and3_all3]; rfl
+
+theorem evalB_foldl_and (r : Row) (es : List BoolE) : ∀ e,
+    evalB r (es.foldl .andFn e) = (es.map (evalB r)).foldl and3 (evalB r e) := by
+  induction es with
+  | nil => intro e; rfl
+  | cons e' es ih => intro e; simp only [List.foldl_cons, List.map_cons, ih, evalB]
+
+theorem evalB_foldR_or (r : Row) (es : List BoolE) : ∀ e,
+    evalB r (foldR .orFn e es) = any3 ((e :: es).map (evalB r)) := by
+  induction es with
+  | nil => intro e; simp only [foldR, List.map]; rw [← or3_any3]; simp [any3, or3_false]
+  | cons e' es ih => intro e; simp only [foldR, evalB, ih]; rw [or3_any3]; rfl
+
+theorem evalB_foldl_or (r : Row) (es : List BoolE) : ∀ e,
+    evalB r (es.foldl .orFn e) = (es.map (evalB r)).foldl or3 (evalB r e) := by
+  induction es with
+  | nil => intro e; rfl
+  | cons e' es ih => intro e; simp only [List.foldl_cons, List.map_cons, ih, evalB]
+
+theorem evalB_foldFn_and (f : Fold) (r : Row) (e : BoolE) (es : List BoolE) :
+    evalB r (foldFn f .andFn e es) = all3 ((e :: es).map (evalB r)) := by
+  cases f
+  · exact evalB_foldR_and r es e
+  · simp only [foldFn, evalB_foldl_and, foldl_and3, List.map_cons, and3_all3]
+
+theorem evalB_foldFn_or (f : Fold) (r : Row) (e : BoolE) (es : List BoolE) :
+    evalB r (foldFn f .orFn e es) = any3 ((e :: es).map (evalB r)) := by
+  cases f
+  · exact evalB_foldR_or r es e
+  · simp only [foldFn, evalB_foldl_or, foldl_or3, List.map_cons, or3_any3]
 
 
 end SqlObjVerif.Expr
